@@ -4,16 +4,16 @@ CONSTANTS
   StabV = {}
   NP = 2
   UseQueue = TRUE
-  SkipQueue = FALSE
+  SkipQueue = TRUE
   Faults = FALSE
   MaxC = 9
   RepStatuses = {"SUCCESSFUL", "FAILED"}
   Atomic = TRUE
   ReportFine = FALSE
   AutoApprove = TRUE
-  Opts = {}
+  Opts = {"nooct"}
   ReportOnce = TRUE
-  MaxLevel = 10
+  MaxLevel = 13
   EmitJson = FALSE
   AtomicPush = TRUE
   FixSelect = TRUE
